@@ -14,7 +14,9 @@ Step ==
   /\ viol' = viol
        \* "notup": the process stayed alive and reported an ordinary error; tolerated only where the configuration names
        \* something the environment cannot provide (a host name that does not resolve) -- never a nil dereference / crash
-       \cup (IF Ev.accepted /\ Ev.start # "ok" /\ ~(Ev.start = "notup" /\ \E f \in Changed : Ev.cfg[f] = "badname") THEN {V("accepted_config_starts", [changed |-> Sit.changed, how |-> Ev.start])} ELSE {})
+       \cup (IF Ev.accepted /\ Ev.start # "ok" /\ ~(Ev.start = "notup" /\ \E f \in Changed : Ev.cfg[f] = "badname")
+             \* "notserved": everything came up and stayed up, the charging request was refused: tolerated only for protocol sctp
+             /\ ~(Ev.start = "notserved" /\ \E f \in Changed : Ev.cfg[f] = "sctp") THEN {V("accepted_config_starts", [changed |-> Sit.changed, how |-> Ev.start])} ELSE {})
        \cup (IF Ev.must_reject /\ Ev.accepted THEN {V("invalid_config_rejected", Sit)} ELSE {})
   /\ div' = div \cup (IF Ev.accepted # Ev.valid THEN {[trace |-> Ev.trace, step |-> Ev.seq, model_valid |-> Ev.valid, accepted |-> Ev.accepted, changed |-> Sit.changed]} ELSE {})
 Finish == /\ l = Len(Trace) + 1
